@@ -38,6 +38,18 @@
       visitor records where, for all targets / arguments / calls of the getattr-family-free fragment;
     * `C10_cex_call_on_call_collapsed / receiver_prefix_base / xattr_lhs_base / sorted_unbound_base`
       — what the string operations downstream of the namers do to a documented spelling.
+
+  The getattr family THROUGH A CALLER (the base of the accessed name is what parameter → argument
+  substitution keys on; Tie B: ops `analyse_fn` and `pipeline`, py/props/c10callers.py):
+    * `C10_dynBase_spell`, `C10_dynBase_dotted` — for every access chain over a variable the base
+      `get_dynamic_name` derives from the spelled string is the documented base (string lemmas in
+      RattrProofs/Lemmas/C10Strs.lean), also under any nesting of literal names;
+    * `C10_xattr_pair_chain`, `dynamicName_ok`, `C10_site_xattr_full`, `C10_site_xattr_visit` — the
+      visitor records `Name(<documented spelling>.k, <documented base>)` in gets / sets / dels;
+    * `C10_spell_substBase`, `C10_xattr_through_caller` — unbinding with the argument's spelling gives
+      the documented spelling of the object with the ARGUMENT in place of the parameter;
+    * `C10_caller_leak`, `C10_cex_shared_helper_keeps_brackets`, `C10_obs_lhs_default_base` — a base
+      that is no parameter (`p[]`) is not substituted; which dotted prefixes deviate on the pinned code.
 -/
 import RattrModel.Naming
 import RattrModel.Spec.Spell
@@ -45,6 +57,7 @@ import RattrModel.Generated.C10
 import RattrModel.NamingSites
 import RattrModel.FnAnalyser
 import RattrProofs.Lemmas.Visit
+import RattrProofs.Lemmas.C10Strs
 
 namespace Rattr.C10
 open Rattr Rattr.Naming
@@ -1384,6 +1397,400 @@ theorem C10_cex_sorted_unbound_base :
     Results.unbindList [(sE, Spec.spell (.attr (.name sX) sItems))] [⟨sE ++ ['.'] ++ sW, sE⟩]
       = some [⟨['x','.','i','t','e','m','s','.','w'], ['x','.','i','t','e','m','s']⟩]
     ∧ Spec.base (.attr (.name sX) sItems) = sX := by decide
+
+/-! ### The getattr family THROUGH A CALLER
+
+`getattr` / `hasattr` / `setattr` / `delattr` calls are named by `get_dynamic_name` (the deprecated
+path `get_xattr_obj_name_pair`), which derives the BASE of the accessed name `O.k` from the spelled
+string: `first.split(".")[0].replace("*","").replace("[]","").replace("()","")`. The base is invisible
+in the function's own results; it is the key of parameter → argument substitution when the function is
+called (`Results.unbindList`: `swaps.get(name.basename)`). The theorems below say, for ALL access
+chains over a variable (any depth, any mix of `.a` / `[…]` / `(…)`):
+
+  * `C10_dynBase_spell` — the string pipeline computes exactly the documented base;
+  * `C10_site_xattr_full` / `C10_site_xattr_visit` — the visitor records `Name(<documented spelling
+    of the object>.k, <documented base>)` in gets (getattr, hasattr) / sets (setattr) / dels (delattr);
+  * `C10_spell_substBase` — the README table is compositional under substitution of the variable;
+  * `C10_xattr_through_caller` — unbinding that name with the argument's spelling gives the
+    documented spelling of the object WITH THE ARGUMENT IN PLACE OF THE PARAMETER;
+  * `C10_caller_leak` / `C10_cex_shared_helper_keeps_brackets` — a base that is not a parameter
+    (what `get_basename_from_name` would give: `p[]`) leaves the callee-local spelling in the caller.
+
+Tie B: op `analyse_fn` (channel `ir` of py/props/c10sites.py) for the recorded pair, op `pipeline`
+(py/props/c10callers.py) for the callers' printed results. -/
+
+open Rattr.C10S in
+/-- an access chain over a variable whose identifier has none of `. * [ ] ( )` -/
+def chain : Expr → Bool
+  | .name x => identOK x
+  | .attr e _ => chain e
+  | .sub e => chain e
+  | .call f _ => chain f
+  | .starred _ => false
+  | .strConst _ => false
+  | .other _ => false
+
+/-- an attribute step on the spine -/
+def hasAttr : Expr → Bool
+  | .attr _ _ => true
+  | .sub e => hasAttr e
+  | .call f _ => hasAttr f
+  | .starred e => hasAttr e
+  | _ => false
+
+/-- the bracket tokens of the FIRST dotted component of the spelling (`true` = `[]`, `false` = `()`) -/
+def firstToks : Expr → List Bool
+  | .attr e _ => firstToks e
+  | .sub e => if hasAttr e then firstToks e else firstToks e ++ [true]
+  | .call f _ => if hasAttr f then firstToks f else firstToks f ++ [false]
+  | _ => []
+
+/-- what follows the variable in the spelling -/
+def sfx : Expr → Str
+  | .attr e a => sfx e ++ ['.'] ++ a
+  | .sub e => sfx e ++ ['[', ']']
+  | .call f _ => sfx f ++ ['(', ')']
+  | _ => []
+
+/-- `get_dynamic_name`'s base: first dotted component, `*` / `[]` / `()` removed. -/
+def dynBase (first : Str) : Str := C10S.stripBrackets (C10S.headDot first)
+
+theorem chain_strict : ∀ e, chain e = true → strictlyNameable e = true
+  | .name _, _ => rfl
+  | .attr e _, h => by simpa [strictlyNameable] using chain_strict e (by simpa [chain] using h)
+  | .sub e, h => by simpa [strictlyNameable] using chain_strict e (by simpa [chain] using h)
+  | .call f _, h => by simpa [strictlyNameable] using chain_strict f (by simpa [chain] using h)
+  | .starred _, h => by simp [chain] at h
+  | .strConst _, h => by simp [chain] at h
+  | .other _, h => by simp [chain] at h
+
+theorem chain_call_plain {f : Expr} {args : List Expr} (hx : xattrFree (.call f args) = true) :
+    Spec.spell (.call f args) = Spec.spell f ++ ['(', ')'] ∧ Spec.base (.call f args) = Spec.base f
+      ∧ xattrFree f = true := by
+  simp [xattrFree] at hx
+  have hp : ∀ g, f = .name g → isXattr g = false := by
+    intro g hg; subst hg; simpa [plainBase] using hx.2
+  have := spec_call_plain f args hp
+  exact ⟨by simpa [parens] using this.1, this.2, hx.1⟩
+
+/-- the base of a chain is its (clean) identifier -/
+theorem chain_base_ident : ∀ e, chain e = true → xattrFree e = true → C10S.identOK (Spec.base e) = true
+  | .name x, h, _ => by simpa [chain, Spec.base] using h
+  | .attr e a, h, hx => by
+    simpa [Spec.base] using chain_base_ident e (by simpa [chain] using h) (by simpa [xattrFree] using hx)
+  | .sub e, h, hx => by
+    simpa [Spec.base] using chain_base_ident e (by simpa [chain] using h) (by simpa [xattrFree] using hx)
+  | .call f args, h, hx => by
+    have hc := chain_call_plain hx
+    rw [hc.2.1]
+    exact chain_base_ident f (by simpa [chain] using h) hc.2.2
+  | .starred _, h, _ => by simp [chain] at h
+  | .strConst _, h, _ => by simp [chain] at h
+  | .other _, h, _ => by simp [chain] at h
+
+/-- **The spelling of a chain is its variable followed by its steps.** -/
+theorem spell_eq_base_sfx : ∀ e, chain e = true → xattrFree e = true → Spec.spell e = Spec.base e ++ sfx e
+  | .name x, _, _ => by simp [Spec.spell, Spec.base, sfx]
+  | .attr e a, h, hx => by
+    have ih := spell_eq_base_sfx e (by simpa [chain] using h) (by simpa [xattrFree] using hx)
+    simp [Spec.spell, Spec.base, sfx, ih]
+  | .sub e, h, hx => by
+    have ih := spell_eq_base_sfx e (by simpa [chain] using h) (by simpa [xattrFree] using hx)
+    simp [Spec.spell, Spec.base, sfx, ih]
+  | .call f args, h, hx => by
+    have hc := chain_call_plain hx
+    have ih := spell_eq_base_sfx f (by simpa [chain] using h) hc.2.2
+    rw [hc.1, hc.2.1, ih]; simp [sfx]
+  | .starred _, h, _ => by simp [chain] at h
+  | .strConst _, h, _ => by simp [chain] at h
+  | .other _, h, _ => by simp [chain] at h
+
+theorem hasAttr_dot : ∀ e, chain e = true → xattrFree e = true → hasAttr e = true → '.' ∈ Spec.spell e
+  | .name x, _, _, ha => by simp [hasAttr] at ha
+  | .attr e a, _, _, _ => by simp [Spec.spell]
+  | .sub e, h, hx, ha => by
+    have := hasAttr_dot e (by simpa [chain] using h) (by simpa [xattrFree] using hx) (by simpa [hasAttr] using ha)
+    simp [Spec.spell, this]
+  | .call f args, h, hx, ha => by
+    have hc := chain_call_plain hx
+    have := hasAttr_dot f (by simpa [chain] using h) hc.2.2 (by simpa [hasAttr] using ha)
+    rw [hc.1]; simp [this]
+  | .starred _, h, _, _ => by simp [chain] at h
+  | .strConst _, h, _, _ => by simp [chain] at h
+  | .other _, h, _, _ => by simp [chain] at h
+
+/-- without an attribute step the whole spelling is the first component: variable ++ bracket tokens -/
+theorem spell_noAttr : ∀ e, chain e = true → xattrFree e = true → hasAttr e = false →
+    Spec.spell e = Spec.base e ++ C10S.flat (firstToks e)
+  | .name x, _, _, _ => by simp [Spec.spell, Spec.base, firstToks, C10S.flat]
+  | .attr e a, _, _, ha => by simp [hasAttr] at ha
+  | .sub e, h, hx, ha => by
+    have ha' : hasAttr e = false := by simpa [hasAttr] using ha
+    have ih := spell_noAttr e (by simpa [chain] using h) (by simpa [xattrFree] using hx) ha'
+    simp [Spec.spell, Spec.base, firstToks, ha', ih, C10S.flat_append, C10S.flat, C10S.tok]
+  | .call f args, h, hx, ha => by
+    have hc := chain_call_plain hx
+    have ha' : hasAttr f = false := by simpa [hasAttr] using ha
+    have ih := spell_noAttr f (by simpa [chain] using h) hc.2.2 ha'
+    rw [hc.1, hc.2.1, ih]
+    simp [firstToks, ha', C10S.flat_append, C10S.flat, C10S.tok]
+  | .starred _, h, _, _ => by simp [chain] at h
+  | .strConst _, h, _, _ => by simp [chain] at h
+  | .other _, h, _, _ => by simp [chain] at h
+
+theorem noAttr_noDot (e : Expr) (h : chain e = true) (hx : xattrFree e = true) (ha : hasAttr e = false) :
+    '.' ∉ Spec.spell e := by
+  rw [spell_noAttr e h hx ha]
+  simp only [List.mem_append, not_or]
+  exact ⟨C10S.identOK_not_mem (chain_base_ident e h hx) (by decide), C10S.flat_no_dot _⟩
+
+/-- **`first.split(".")[0]` of a chain's spelling is the variable followed by bracket tokens.** -/
+theorem headDot_spell : ∀ e, chain e = true → xattrFree e = true →
+    C10S.headDot (Spec.spell e) = Spec.base e ++ C10S.flat (firstToks e)
+  | .name x, h, _ => by
+    have : '.' ∉ x := C10S.identOK_not_mem (by simpa [chain] using h) (by decide)
+    simp [Spec.spell, Spec.base, firstToks, C10S.flat, C10S.headDot_noDot x this]
+  | .attr e a, h, hx => by
+    have ih := headDot_spell e (by simpa [chain] using h) (by simpa [xattrFree] using hx)
+    have : Spec.spell (.attr e a) = Spec.spell e ++ '.' :: a := by simp [Spec.spell]
+    rw [this, C10S.headDot_append_dot, ih]; simp [Spec.base, firstToks]
+  | .sub e, h, hx => by
+    have hc : chain e = true := by simpa [chain] using h
+    have hxe : xattrFree e = true := by simpa [xattrFree] using hx
+    have ih := headDot_spell e hc hxe
+    have hs : Spec.spell (.sub e) = Spec.spell e ++ ['[', ']'] := by simp [Spec.spell]
+    rw [hs, C10S.headDot_eq, C10S.takeWhile_append_noDot _ _ (by simp)]
+    cases ha : hasAttr e with
+    | true =>
+      have hd := hasAttr_dot e hc hxe ha
+      simp only [hd, if_true, ← C10S.headDot_eq, ih]; simp [Spec.base, firstToks, ha]
+    | false =>
+      have hd := noAttr_noDot e hc hxe ha
+      simp only [hd, if_false]
+      rw [spell_noAttr e hc hxe ha]
+      simp [Spec.base, firstToks, ha, C10S.flat_append, C10S.flat, C10S.tok]
+  | .call f args, h, hx => by
+    have hcp := chain_call_plain hx
+    have hc : chain f = true := by simpa [chain] using h
+    have ih := headDot_spell f hc hcp.2.2
+    rw [hcp.1, hcp.2.1, C10S.headDot_eq, C10S.takeWhile_append_noDot _ _ (by simp)]
+    cases ha : hasAttr f with
+    | true =>
+      have hd := hasAttr_dot f hc hcp.2.2 ha
+      simp only [hd, if_true, ← C10S.headDot_eq, ih]; simp [firstToks, ha]
+    | false =>
+      have hd := noAttr_noDot f hc hcp.2.2 ha
+      simp only [hd, if_false]
+      rw [spell_noAttr f hc hcp.2.2 ha]
+      simp [firstToks, ha, C10S.flat_append, C10S.flat, C10S.tok]
+  | .starred _, h, _ => by simp [chain] at h
+  | .strConst _, h, _ => by simp [chain] at h
+  | .other _, h, _ => by simp [chain] at h
+
+/-- **The base `get_dynamic_name` derives from the spelled string is the documented base** — for every
+access chain over a variable, whatever brackets its first dotted component carries (`p[0]`, `p(v).m`,
+`p[0](v)[1].a.b`). -/
+theorem C10_dynBase_spell (e : Expr) (h : chain e = true) (hx : xattrFree e = true) :
+    dynBase (Spec.spell e) = Spec.base e := by
+  unfold dynBase
+  rw [headDot_spell e h hx]
+  exact C10S.stripBrackets_ident_flat _ _ (chain_base_ident e h hx)
+
+/-- … and so is the base of every NESTED literal getattr-family name built on it: the literal names
+come after the first dot. -/
+theorem C10_dynBase_dotted (e : Expr) (ks : List Str) (h : chain e = true) (hx : xattrFree e = true) :
+    dynBase (dotted (Spec.spell e) ks) = Spec.base e := by
+  induction ks with
+  | nil => simpa [dotted] using C10_dynBase_spell e h hx
+  | cons k r ih =>
+    have : dotted (Spec.spell e) (k :: r) = dotted (Spec.spell e) r ++ '.' :: k := by simp [dotted, dot]
+    rw [this]
+    unfold dynBase at ih ⊢
+    rw [C10S.headDot_append_dot]
+    exact ih
+
+theorem dotted_append (a b : Str) (ks : List Str) : dotted (a ++ b) ks = a ++ dotted b ks := by
+  induction ks with
+  | nil => simp [dotted]
+  | cons k r ih => simp [dotted, ih]
+
+/-- `get_xattr_obj_name_pair` (the Expr-level model `Naming.xattrPair`, tied to the code by op `names`)
+on a nest of literal calls of one getattr-family builtin over a chain object (not itself a call): the
+object's documented spelling followed by the inner literals, and the outermost literal. -/
+theorem C10_xattr_pair_chain (fn : Str) (obj : Expr) (k : Str) (ks : List Str)
+    (hcall : C10.isCall obj = false) (hc : chain obj = true) (hx : xattrFree obj = true) :
+    xattrPair fn [nestX fn obj ks, .strConst k] = .ok (dotted (Spec.spell obj) ks) k :=
+  xattrPair_nest fn obj _ _ hcall (C10_compositional_strict obj true hx (chain_strict obj hc)).2 ks k
+
+/-- **Consumer `get_dynamic_name`** (rattr/analyser/util.py; used by plugins/analysers/builtins.py
+`accessed_attributes`): whatever pair `get_xattr_obj_name_pair` returns, the name handed on is
+`Name(first.second, dynBase first)`. -/
+theorem dynamicName_ok (s : St) (fn k first second : Str) (obj : Node) (rest : List Node)
+    (cont : St → NameS → Res)
+    (hp : Rattr.xattrPairOld fn (obj :: .strConst k :: rest) = .ok first second) :
+    dynamicName s fn (obj :: .strConst k :: rest) cont = cont s ⟨first ++ '.' :: second, dynBase first⟩ := by
+  simp only [FnA.dynamicName, hp, dynBase, C10S.stripBrackets, C10S.headDot]
+
+/-- **The name a literal getattr-family call records is the documented pair.** When the pair is the
+one `C10_xattr_pair_chain` computes — object a chain `e`, inner literals `ks`, outer literal `k` —
+the recorded name is `Name(<spelling of e>.ks….k, <base of e>)`: the documented spelling of the nest
+(`C10_xattr_spec`) with the documented base, for every chain, whatever brackets its first dotted
+component carries. -/
+theorem C10_site_xattr_full (s : St) (fn k : Str) (obj : Node) (rest : List Node) (cont : St → NameS → Res)
+    (e : Expr) (ks : List Str) (hc : chain e = true) (hx : xattrFree e = true)
+    (hp : Rattr.xattrPairOld fn (obj :: .strConst k :: rest) = .ok (dotted (Spec.spell e) ks) k) :
+    dynamicName s fn (obj :: .strConst k :: rest) cont
+      = cont s ⟨dotted (Spec.spell e) (k :: ks), Spec.base e⟩ := by
+  rw [dynamicName_ok s fn k _ _ obj rest cont hp, C10_dynBase_dotted e ks hc hx]
+  simp [dotted, dot]
+
+/-- **Consumer: the getattr-family analysers, through `visit_Call`.** A call that the custom analyser
+`q` takes, over a chain object with literal names, records the documented pair in the section of the
+builtin: gets for getattr / hasattr, sets for setattr, dels for delattr. -/
+theorem C10_site_xattr_visit (env : Env) (mn : Str) (f obj : Node) (k : Str) (rest : List Node)
+    (kwn : List (Option Str)) (kwv : List Node) (s s' : St) (b tn q : Str) (e : Expr) (ks : List Str)
+    (htn : Rattr.targetNameNoUnravel (.call f (obj :: .strConst k :: rest) kwn kwv) = .ok b tn)
+    (hq : analyserFor env mn (Context.getCallTarget env.ctxEnv s.ctx tn
+        (isCallOnCall (.call f (obj :: .strConst k :: rest) kwn kwv)) false).1 = some q)
+    (hc : chain e = true) (hx : xattrFree e = true)
+    (hp : Rattr.xattrPairOld tn (obj :: .strConst k :: rest) = .ok (dotted (Spec.spell e) ks) k)
+    (h : visit env mn (.call f (obj :: .strConst k :: rest) kwn kwv) s = .ok s') :
+    let full : NameS := ⟨dotted (Spec.spell e) (k :: ks), Spec.base e⟩
+    ((q = "getattr".toList ∨ q = "hasattr".toList) → full ∈ s'.gets)
+    ∧ (q = "setattr".toList → full ∈ s'.sets)
+    ∧ (q = "delattr".toList → full ∈ s'.dels) := by
+  intro full
+  unfold visit at h
+  simp only [htn, FnA.liftName, hq] at h
+  refine ⟨?_, ?_, ?_⟩
+  · intro hg
+    have hg' : (q = "getattr".toList || q = "hasattr".toList) = true := by
+      rcases hg with e0 | e0 <;> simp [e0]
+    simp only [hg', if_true, C10_site_xattr_full _ _ _ _ _ _ e ks hc hx hp] at h
+    cases h
+    exact mem_foldl_addTo.mpr (Or.inr (List.mem_cons_self ..))
+  · intro hg
+    subst hg
+    simp only [C10_site_xattr_full _ _ _ _ _ _ e ks hc hx hp] at h
+    have h' := h
+    simp (config := { decide := true }) only [if_true, if_false] at h'
+    cases h'
+    exact mem_addTo_self _ _
+  · intro hg
+    subst hg
+    simp only [C10_site_xattr_full _ _ _ _ _ _ e ks hc hx hp] at h
+    have h' := h
+    simp (config := { decide := true }) only [if_true, if_false] at h'
+    cases h'
+    exact mem_addTo_self _ _
+
+/-- the variable of a chain replaced by an expression (what a call `f(arg)` does to the parameter) -/
+def substBase (arg : Expr) : Expr → Expr
+  | .name _ => arg
+  | .attr e a => .attr (substBase arg e) a
+  | .sub e => .sub (substBase arg e)
+  | .call f args => .call (substBase arg f) args
+  | e => e
+
+/-- **The README table is compositional under substitution**: the spelling of a chain with an
+expression in place of its variable is that expression's spelling followed by the chain's steps. -/
+theorem C10_spell_substBase (arg : Expr) (ha : ∀ g, arg = .name g → isXattr g = false) :
+    ∀ e, chain e = true → Spec.spell (substBase arg e) = Spec.spell arg ++ sfx e
+  | .name x, _ => by simp [substBase, sfx]
+  | .attr e a, h => by
+    simp [substBase, Spec.spell, sfx, C10_spell_substBase arg ha e (by simpa [chain] using h)]
+  | .sub e, h => by
+    simp [substBase, Spec.spell, sfx, C10_spell_substBase arg ha e (by simpa [chain] using h)]
+  | .call f args, h => by
+    have hc : chain f = true := by simpa [chain] using h
+    have hp : ∀ g, substBase arg f = .name g → isXattr g = false := by
+      intro g hg
+      cases f with
+      | name x => exact ha g (by simpa [substBase] using hg)
+      | attr e a => simp [substBase] at hg
+      | sub e => simp [substBase] at hg
+      | call f' a' => simp [substBase] at hg
+      | starred e => simp [chain] at hc
+      | strConst s => simp [chain] at hc
+      | other k => simp [chain] at hc
+    have := (spec_call_plain (substBase arg f) args hp).1
+    simp only [substBase, this, C10_spell_substBase arg ha f hc, sfx, parens]
+    simp
+  | .starred _, h => by simp [chain] at h
+  | .strConst _, h => by simp [chain] at h
+  | .other _, h => by simp [chain] at h
+
+/-- **Through a caller.** Unbinding the name a getattr-family call records for a chain object
+(`C10_site_xattr_full`: spelling `O.k…`, base = the parameter) with the spelling of the caller's
+argument gives the documented spelling of the object with the ARGUMENT in place of the parameter,
+followed by the literal names: `setattr(p[0], 'flag', v)` called as `mark(x.rows, v)` is
+`x.rows[].flag`. For every chain, every argument expression, every list of literal names. -/
+theorem C10_xattr_through_caller (e arg : Expr) (ks : List Str) (h : chain e = true) (hx : xattrFree e = true)
+    (ha : ∀ g, arg = .name g → isXattr g = false) :
+    Results.unbindName ⟨dotted (Spec.spell e) ks, dynBase (dotted (Spec.spell e) ks)⟩ (Spec.spell arg)
+      = some ⟨dotted (Spec.spell (substBase arg e)) ks, Spec.spell arg⟩ := by
+  rw [C10_dynBase_dotted e ks h hx, C10_spell_substBase arg ha e h, spell_eq_base_sfx e h hx,
+    dotted_append, dotted_append]
+  have hid := chain_base_ident e h hx
+  generalize Spec.base e = p at hid
+  generalize dotted (sfx e) ks = t
+  generalize Spec.spell arg = A
+  have hne : p ≠ [] := by
+    intro e0; subst e0; simp [C10S.identOK] at hid
+  have hstar : '*' ∉ p := C10S.identOK_not_mem hid (by decide)
+  unfold Results.unbindName
+  by_cases hpa : p = A
+  · subst hpa; simp
+  · cases p with
+    | nil => exact absurd rfl hne
+    | cons c r =>
+      have hc : c ≠ '*' := fun e0 => hstar (by simp [e0])
+      simp [hpa, hc]
+
+/-- A recorded base that no parameter carries is not substituted: the name reaches the caller with
+the callee's spelling. -/
+theorem C10_caller_leak (sw : Dict Str Str) (n : NameS) (hk : Dict.get? sw n.base = none) :
+    Results.unbindList sw [n] = some [n] := by
+  simp [Results.unbindList, Results.unbindName, hk]
+
+/-- `p[0]`: the object of `setattr(p[0], 'flag', v)` -/
+def w_param_sub : Expr := .sub (.name ['p'])
+/-- `p(v).m[0]`: call and subscript around the first attribute -/
+def w_param_mixed : Expr := .sub (.attr (.call (.name ['p']) [.name ['v']]) ['m'])
+
+/-- **The shared helper is not a replacement.** `get_basename_from_name` (`Strs.basenameFromName`:
+trailing call brackets and `*` only) keeps the `[]` of the first component where `get_dynamic_name`'s
+pipeline strips it; and with the base `p[]` — no parameter of the callee — the accessed name stays
+`p[].k` in a caller that passes `x.r` for `p` (documented, and what the pinned code prints: `x.r[].k`). -/
+theorem C10_cex_shared_helper_keeps_brackets :
+    Strs.basenameFromName (Spec.spell w_param_sub) = ['p','[',']']
+    ∧ dynBase (Spec.spell w_param_sub) = ['p']
+    ∧ Results.unbindList [(['p'], ['x','.','r'])] [⟨Spec.spell w_param_sub ++ ['.','k'], ['p','[',']']⟩]
+        = some [⟨['p','[',']','.','k'], ['p','[',']']⟩]
+    ∧ Results.unbindList [(['p'], ['x','.','r'])] [⟨Spec.spell w_param_sub ++ ['.','k'], ['p']⟩]
+        = some [⟨['x','.','r','[',']','.','k'], ['x','.','r']⟩] := by decide
+
+/-- Which dotted PREFIXES of a getattr-family name the pinned code reports with a wrong base
+(`lhsNames` = `Name(prefix)` with the default basename; the known finding `…:keeps-brackets:xattr-lhs`):
+exactly those whose first dotted component, trailing call brackets of the whole prefix dropped, still
+has brackets. A finite table (a test, by kernel evaluation): `p[]`, `p[].a`, `p().m`, `p()[]`, `p[]()`
+deviate; `p()`, `p.a[]`, `p.a()` do not. -/
+theorem C10_obs_lhs_default_base :
+    (FnA.nameDefault ['p','[',']']).base = ['p','[',']']
+    ∧ (FnA.nameDefault ['p','[',']','.','a']).base = ['p','[',']']
+    ∧ (FnA.nameDefault ['p','(',')','.','m']).base = ['p','(',')']
+    ∧ (FnA.nameDefault ['p','(',')','[',']']).base = ['p','(',')','[',']']
+    ∧ (FnA.nameDefault ['p','[',']','(',')']).base = ['p','[',']']
+    ∧ (FnA.nameDefault ['p','(',')']).base = ['p']
+    ∧ (FnA.nameDefault ['p','.','a','[',']']).base = ['p']
+    ∧ (FnA.nameDefault ['p','.','a','(',')']).base = ['p'] := by decide
+
+example : chain w_param_sub = true ∧ xattrFree w_param_sub = true ∧ firstToks w_param_sub = [true]
+    ∧ C10.isCall w_param_sub = false := by decide
+example : chain w_param_mixed = true ∧ xattrFree w_param_mixed = true ∧ firstToks w_param_mixed = [false]
+    ∧ hasAttr w_param_mixed = true ∧ sfx w_param_mixed = ['(',')','.','m','[',']'] := by decide
+example : Spec.spell (substBase (.attr (.name ['x']) ['r']) w_param_mixed) = "x.r().m[]".toList := by decide
+example : dotted (Spec.spell w_param_sub) [['m'], ['k']] = "p[].k.m".toList := by decide
 
 /-! ### Non-vacuity of the consumer theorems -/
 
